@@ -182,6 +182,16 @@ def strace(log, args, inject=None, timeout=120):
     return p
 
 
+def available():
+    """strace with fault injection must work here (ptrace may be forbidden in some sandboxes)"""
+    try:
+        p = subprocess.run(["strace", "-f", "-o", "/dev/null", "-e", "trace=unlink", "-e", "inject=unlink:signal=KILL:when=999", "true"],
+                           stdout=subprocess.PIPE, stderr=subprocess.PIPE, timeout=30)
+        return p.returncode == 0
+    except Exception:
+        return False
+
+
 def explore(w, proto, seed, tag):
     """One operation explored at every modifying system call.  -> (trace event lines, stats)"""
     vlib.build_harness()
